@@ -278,8 +278,11 @@ func finish(r *lib.RNG, c *Case) {
 		return
 	}
 	stride := lib.Pick(r, []uint64{7, 300, 1000, 2500})
-	spread(c, uint64(r.Range(0, 3))*1_000_000, stride)
+	spread(c, 0, stride)
 	c.Chunk = lib.Pick(r, []uint64{stride/2 + 1, stride, stride + 1, 1000, 3 * stride})
+	if min := c.Latest/40 + 1; c.Chunk < min { // a scan to genesis stays within ~40 queries
+		c.Chunk = min
+	}
 }
 
 // gethDirected: several reorgs on ONE subscription, the later ones at or above the height of the
